@@ -95,6 +95,8 @@ theorem propsFold_ss (f : C → Nat → Nat → C) (hf : ∀ c id v, SS c (f c i
   cases h : (Alloc.deallocate c.s.pidMan id).1 <;> simp [releaseId, h, SS]
 @[simp] theorem releaseIfUsed_ss (c : C) (id : Nat) : SS c (releaseIfUsed c id) := by
   unfold releaseIfUsed; store_tac
+@[simp] theorem refuseSend_ss (c : C) (e : Nat) (p : Pkt) : SS c (refuseSend c e p) := by
+  unfold refuseSend; split <;> store_tac
 @[simp] theorem psSubUnsub_ss (c : C) (p : Pkt) : SS c (psSubUnsub c p) := by
   unfold psSubUnsub; store_tac
 
@@ -233,6 +235,10 @@ theorem restorePackets_inv (ps : List Pkt) : ∀ c, Wf c → PidInv c.s → PidI
 
 /-! ## store ids stay pairwise distinct under every model function -/
 
+theorem resendStored_kn {c : C} (h : KN c.s.store) : KN (resendStored c).s.store :=
+  resendStored_ind (Q := fun x => KN x.s.store) c (sendStored_kn h)
+    (fun h' => by rw [sendPostProcess_ss]; exact h')
+
 theorem ite_KN (p : Prop) {_ : Decidable p} (a b : List (Nat × Pkt)) :
     KN (if p then a else b) = if p then KN a else KN b := apply_ite _ _ _ _
 
@@ -243,7 +249,7 @@ theorem KN_add' {l : List (Nat × Pkt)} (h : KN l) (id : Nat) (p : Pkt) (hn : st
 
 macro "kn_tac" : tactic =>
   `(tactic| simp_all [ite_s, ite_store, ite_fst, ite_snd, ite_KN, storeAdd_store, KN_nil, KN_add, KN_add', KN_erase,
-      KN_storeErase, KN_storeErasePublish, sendStored_kn])
+      KN_storeErase, KN_storeErasePublish, sendStored_kn, resendStored_kn])
 
 theorem storeAdd_kn {c : C} (h : KN c.s.store) (id : Nat) (p : Pkt) (x : String) :
     KN (storeAdd c id p x).s.store := by
@@ -327,7 +333,7 @@ theorem prV5Connack_kn {c : C} (h : KN c.s.store) (x : Except Nat Pkt) : KN (prV
   (repeat' (first | split | (simp only []; split))) <;>
     first
     | (kn_tac; done)
-    | (simp only [push_s]; apply sendStored_kn; apply propsFold_connackRecvProp_kn; kn_tac; done)
+    | (simp only [push_s]; apply resendStored_kn; apply propsFold_connackRecvProp_kn; kn_tac; done)
 theorem prPuback_kn {c : C} (h : KN c.s.store) (x : Except Nat Pkt) : KN (prPuback c x).s.store := by
   unfold prPuback; (repeat' (first | split | (simp only []; split))) <;> kn_tac
 theorem prPubcomp_kn {c : C} (h : KN c.s.store) (x : Except Nat Pkt) : KN (prPubcomp c x).s.store := by
